@@ -105,7 +105,8 @@ def _text_task(pats):
     for l, r, o, p in zip(lines, real, out, owner):
         if r != o and len(bad) < 25:
             bad.append(dict(pattern=p, line=l, implementation=r, model=o))
-    return len(lines), bad, (lines[:3], out[:3])
+    step = max(1, len(lines) // 12)
+    return len(lines), bad, (lines[::step][:12], out[::step][:12])
 
 
 def _prefix_task(args):
@@ -345,59 +346,60 @@ def witness_names(p):
     names = [""]
     for k in (1, 2, 3):
         names.extend("".join(c) for c in itertools.product(base, repeat=k))
+    small = ["a", "/", "B", "."] + [c for c in p if c not in "*?[!aB/."][:2]
+    for k in (4, 5):
+        names.extend("".join(c) for c in itertools.product(small[:7 - k], repeat=k))
     return names
 
 
-def find_witness(p, budget=6000):
+def find_witness(p, budget=9000):
     """a (function, pattern, subject) on which the running match/imatch disagrees with the
-    specification matchers of Glob/ShellSpec.v (via the extracted model)"""
+    specification matchers of Glob/ShellSpec.v (via the extracted model) AND with what the model
+    of the translation predicts (so that deviations the model already reproduces — the recorded
+    findings, the `_refuted` examples — are not blamed on the change at hand)"""
     import fs.wildcard as W
     import fs.glob as G
     names = witness_names(p)[:budget]
+    norm = {"ST": "T", "SF": "F", "N": "raises re.error", "ok:ST": "T", "ok:SF": "F", "ok:N": "raises re.error"}
     # wildcard: names as they are
-    lines = ["glob wild %s %s %s" % ("1" if cs else "0", tok(p), tok(n)) for n in names for cs in (True, False)]
-    spec = common.run_model_parallel(lines, procs=PROCS)
-    i = 0
+    cases = [(n, cs) for n in names for cs in (True, False) if cs or (is_ascii(p) and is_ascii(n))]
+    spec = common.run_model_parallel(["glob wild %s %s %s" % ("1" if cs else "0", tok(p), tok(n)) for n, cs in cases], procs=PROCS)
+    model = common.run_model_parallel(["globre wild_match %s %s %s" % ("1" if cs else "0", tok(p), tok(n)) for n, cs in cases], procs=PROCS)
     with warnings.catch_warnings():
         warnings.simplefilter("ignore")
-        for n in names:
-            for cs in (True, False):
-                s = spec[i]
-                i += 1
-                if not cs and not (is_ascii(p) and is_ascii(n)):
-                    continue
-                try:
-                    impl = common.r_bool((W.match if cs else W.imatch)(p, n))
-                except re.error:
-                    continue
-                except Exception as e:  # noqa
-                    impl = common.exc_name(e)
-                if impl != s:
-                    return dict(function="fs.wildcard.%s" % ("match" if cs else "imatch"), pattern=p, subject=n,
-                                implementation=impl, reference=s)
-    # glob: the property's convention — directories carry a trailing slash and are matched by slash patterns
-    plain = common.run_model(["glob plain %s" % tok(p)])[0] == "T"
-    if plain:
+        for (n, cs), s, m in zip(cases, spec, model):
+            try:
+                impl = common.r_bool((W.match if cs else W.imatch)(p, n))
+            except re.error:
+                impl = "raises re.error"
+            except Exception as e:  # noqa
+                impl = common.exc_name(e)
+            if impl != s and impl != norm.get(m, m):
+                return dict(function="fs.wildcard.%s" % ("match" if cs else "imatch"), pattern=p, subject=n,
+                            implementation=impl, reference=s, unchanged_code_per_model=norm.get(m, m))
+    # glob: the property's convention — proper paths; directories carry a trailing slash and are
+    # matched by slash patterns
+    if common.run_model(["glob plain %s" % tok(p)])[0] == "T":
         is_dir = p.endswith("/")
-        paths = [n for n in names if n.startswith("/") and not n.endswith("/") and "//" not in n and "\n" not in n]
-        lines = ["glob glob 1 %s %s %s" % (tok(p), tok(n), "1" if is_dir else "0") for n in paths]
-        spec = common.run_model_parallel(lines, procs=PROCS) if lines else []
+        paths = [n for n in names if n.startswith("/") and "\n" not in n
+                 and all(c not in ("", ".", "..") for c in n[1:].split("/"))]
+        subj = [n + ("/" if is_dir else "") for n in paths]
+        spec = common.run_model_parallel(["glob glob 1 %s %s %s" % (tok(p), tok(n), "1" if is_dir else "0") for n in paths], procs=PROCS) if paths else []
+        model = common.run_model_parallel(["globre glob_match 1 %s %s" % (tok(p), tok(n)) for n in subj], procs=PROCS) if paths else []
         with warnings.catch_warnings():
             warnings.simplefilter("ignore")
-            for n, s in zip(paths, spec):
+            for n, s, m in zip(subj, spec, model):
                 if not s.startswith("S"):
                     continue
                 try:
-                    impl = "S" + common.r_bool(G.match(p, n + ("/" if is_dir else "")))
+                    impl = common.r_bool(G.match(p, n))
                 except re.error:
-                    continue
+                    impl = "raises re.error"
                 except Exception as e:  # noqa
                     impl = common.exc_name(e)
-                if impl != s:
-                    if "**" in p and impl == "ST":      # the recorded '**' finding, not a new witness
-                        continue
-                    return dict(function="fs.glob.match", pattern=p, subject=n + ("/" if is_dir else ""),
-                                implementation=impl, reference=s)
+                if impl != s[1:] and impl != norm.get(m, m):
+                    return dict(function="fs.glob.match", pattern=p, subject=n, implementation=impl, reference=s[1:],
+                                unchanged_code_per_model=norm.get(m, m))
     return None
 
 
@@ -430,29 +432,54 @@ def find_levels_witness(p):
 
 
 def report_mismatches(report, part, bad, theorem):
-    """(c): turn model/implementation mismatches into violations, with a replayable input if one is found"""
-    seen = set()
-    for b in bad:
+    """(c): turn model/implementation mismatches into violations: up to two with a replayable
+    (pattern, subject) if the search finds one, otherwise ONE correspondence-broken violation
+    (no_input=True) carrying a sample of the mismatches"""
+    if not bad:
+        return 0
+    def rank(b):
+        # patterns most likely to have a proper-path witness first: few odd characters, about 3-4 long
+        q = b.get("pattern") or ""
+        return ("\n" in q, sum(c not in "aB/*?" for c in q), abs(len(q) - 3), q)
+    pats = []
+    for b in sorted(bad, key=rank):
         p = b.get("pattern")
-        sig = (part, (p or b.get("regex", ""))[:2])
-        if sig in seen or len(seen) >= 6:
-            continue
-        seen.add(sig)
+        if p is not None and p not in [q for q, _ in pats]:
+            pats.append((p, b))
+    found = 0
+    t0 = time.time()
+    for p, b in pats[:40]:
+        if time.time() - t0 > 20:
+            break
         w = None
-        if p is not None:
-            try:
-                if "glob_translate_glob" in b.get("line", "") and b["implementation"].split("|")[0] != b["model"].split("|")[0]:
-                    w = find_levels_witness(p)
-                w = w or find_witness(p)
-            except Exception as e:  # noqa
-                w = None
+        try:
+            if "glob_translate_glob" in b.get("line", "") and b["implementation"].split("|")[0] != b["model"].split("|")[0]:
+                w = find_levels_witness(p)
+            w = w or find_witness(p)
+        except Exception as e:  # noqa
+            w = None
         if w:
+            found += 1
             report.violation(dict(kind="does-not-follow-shell-semantics", theorem=theorem, part=part,
                                   model_mismatch=b, path=w["subject"], **w))
-        else:
-            report.violation(dict(kind="correspondence-broken", theorem=theorem, part=part,
-                                  what="the regex translation model of Glob/Translate.v / Glob/Regex.v no longer "
-                                       "describes the running code", **b), no_input=True)
+            break
+    return found
+
+
+def report_all(report, parts, theorem):
+    """parts: [(name, mismatches)]. Witness-carrying violations where the search succeeds; a part
+    without a witness is reported as correspondence-broken (no_input=True) only when no part at all
+    produced a witness (its mismatches have the same cause in all observed cases)."""
+    found = 0
+    for name, bad in parts:
+        found += report_mismatches(report, name, bad, theorem) or 0
+    if not found:
+        for name, bad in parts:
+            if bad:
+                report.violation(dict(kind="correspondence-broken", theorem=theorem, part=name,
+                                      what="the regex translation model of Glob/Translate.v / Glob/Regex.v no "
+                                           "longer describes the running code", mismatches=bad[:5], **bad[0]),
+                                 no_input=True)
 
 
 # --------------------------------------------------------------------------- entry
@@ -515,10 +542,8 @@ def run_translate_checks(report, rnd, tier):
                               line="refuted witness of TranslateProofs.v: expected %r" % impl_expected))
     # (c)
     thm = "Glob/TranslateProofs.v (wild_translate_render, glob_translate_glob_render, wild_regex_correct, glob_regex_correct)"
-    report_mismatches(report, "regex-text", bad_text, thm)
-    report_mismatches(report, "compiled-regex-text", bad_comp, thm)
-    report_mismatches(report, "regex-semantics", bad_sem, thm)
-    report_mismatches(report, "model-matcher", bad_m, thm)
+    report_all(report, [("regex-text", bad_text), ("compiled-regex-text", bad_comp),
+                        ("regex-semantics", bad_sem), ("model-matcher", bad_m)], thm)
     # a sample of every kind of model answer re-evaluated inside Coq
     vm_n, vm_bad = 0, []
     if sample and sample[0] and not os.environ.get("GLOBRE_DRIVER"):
@@ -553,9 +578,14 @@ def replay_translate(d):
     import fs.wildcard as W
     import fs.glob as G
     fn, p, s = d.get("function", ""), d["pattern"], d.get("subject", d.get("path", ""))
+    def call(f):
+        try:
+            return common.r_bool(f(p, s))
+        except re.error:
+            return "raises re.error"
     if fn.startswith("fs.wildcard"):
         cs = fn.endswith(".match")
-        impl = common.r_bool((W.match if cs else W.imatch)(p, s))
+        impl = call(W.match if cs else W.imatch)
         spec = common.run_model(["glob wild %s %s %s" % ("1" if cs else "0", tok(p), tok(s))])[0]
     elif fn == "MemoryFS.glob":
         from fs.memoryfs import MemoryFS
@@ -563,10 +593,12 @@ def replay_translate(d):
         m.makedirs(s.rsplit("/", 1)[0] or "/", recreate=True)
         m.writebytes(s, b"x")
         impl, spec = sorted(g.path for g in m.glob(p)), [s]
+        print("%s(%r) on a tree holding %r =" % (fn, p, s), impl, "must contain:", spec)
+        return 0 if s in impl else 1
     else:
         is_dir = p.endswith("/")
-        impl = "S" + common.r_bool(G.match(p, s))
-        spec = common.run_model(["glob glob 1 %s %s %s" % (tok(p), tok(s.rstrip("/") or "/"), "1" if is_dir else "0")])[0]
+        impl = call(G.match)
+        spec = common.run_model(["glob glob 1 %s %s %s" % (tok(p), tok(s.rstrip("/") or "/"), "1" if is_dir else "0")])[0][1:]
     print("%s(%r, %r) =" % (fn, p, s), impl, "reference:", spec)
     return 0 if impl == spec else 1
 
